@@ -79,7 +79,7 @@ def run(repo, chk):
     p = Q.escapes(g2, [g2.entry], lambda n: n in adds)
     chk.ob('a', rc.ref, 'registerChild adds the component to the children on every normal path', p is None and bool(adds), loc(rc, rc.node),
            path=pat.path_lines(p) if p else None, discr='registerChild:add')
-    drains = [n for n in g2.nodes if n.kind == 'stmt' and any(r == 'self.root._queue' and [src(a) for a in c.args] == [f'{comp}._queue']
+    drains = [n for n in g2.nodes if n.kind == 'stmt' and any(pat.expand_alias(rc, n, r) == 'self.root._queue' and [src(a) for a in c.args] == [f'{comp}._queue']
                                                              for r, c in pat.method_calls(n.ast, 'drainFrom'))]
     p = Q.escapes(g2, [g2.entry], lambda n: n in drains)
     chk.ob('d', rc.ref, 'registerChild drains the child\'s queue into the root\'s queue on every normal path', p is None and bool(drains),
@@ -116,8 +116,8 @@ def run(repo, chk):
     g = done.cfg()
     cut = [n for n in g.nodes if n.kind == 'stmt' and 'self' in pat.stores_attr(n.ast, 'parent') and src(n.ast.value) == 'self']
     need(cut, 'C07.a: unregistration never makes the component its own parent')
-    rem = [n for n in g.nodes if n.kind == 'stmt' and any(r == 'self.parent' and [src(a) for a in c.args] == ['self']
-                                                         for r, c in pat.method_calls(n.ast, 'unregisterChild'))]
+    rem = [n for n in g.nodes if n.kind == 'stmt' and any(pat.expand_alias(done, n, r) == 'self.parent' and [src(a) for a in c.args] == ['self']
+                                                         for r, c in pat.method_calls(n.ast, 'unregisterChild'))]      # also `parent = self.parent; parent.unregisterChild(self)`
     ann = [n for n in g.nodes if n.kind == 'stmt' and pat.fires(n.ast, 'unregistered')]
     upd_self = [n for n in g.nodes if n.kind == 'stmt' and any(r == 'self' and [src(a) for a in c.args] == ['self']
                                                               for r, c in pat.method_calls(n.ast, '_updateRoot'))]
@@ -148,8 +148,10 @@ def run(repo, chk):
     p = Q.escapes(g, [g.entry], lambda n: n in clr, avoid_edge=stale)
     chk.ob('c', done.ref, 'the pending flag is cleared when the unregistration completes', p is None and bool(clr), loc(done, done.node),
            path=pat.path_lines(p) if p else None, discr='detach:flag-cleared')
+    par_names = ['self.parent'] + [src(n.ast.targets[0]) for n in g.nodes if n.kind == 'stmt' and isinstance(n.ast, ast.Assign) and src(n.ast.value) == 'self.parent'
+                                   and isinstance(n.ast.targets[0], ast.Name)]
     p = Q.escapes(g, [g.entry], lambda n: n in cut, avoid_edge=lambda e: stale(e) or pat.test_edge(
-        lambda t, pol: pat.fact_matches(pat.compare_fact(t, pol), 'self.parent', ('is', '=='), 'self'))(e))
+        lambda t, pol: any(pat.fact_matches(pat.compare_fact(t, pol), pn, ('is', '=='), 'self') for pn in par_names))(e))
     chk.ob('a', done.ref, 'every completed unregistration of an attached component cuts the parent link', p is None, loc(done, done.node),
            path=pat.path_lines(p) if p else None, discr='detach:always-cut')
     # unregisterChild removes
@@ -202,7 +204,20 @@ def run(repo, chk):
     rp = upd.params[1]
     st = [n for n in g.nodes if n.kind == 'stmt' and 'self' in pat.stores_attr(n.ast, 'root') and src(n.ast.value) == rp]
     p = Q.escapes(g, [g.entry], lambda n: n in st)
-    chk.ob('b', upd.ref, '_updateRoot assigns the new root on every path', p is None and bool(st), loc(upd, upd.node), discr='updateRoot:assign')
+    # the same walk written with an explicit work list: `todo = [self]; while todo: c = todo.pop(); c.root = root; todo.extend(c.components)`
+    wl_ok = False
+    for w in walk_no_defs(upd.node):
+        if isinstance(w, ast.While) and isinstance(w.test, ast.Name):
+            L = w.test.id
+            init = [n for n in walk_no_defs(upd.node) if isinstance(n, ast.Assign) and src(n.targets[0]) == L and src(n.value).replace(' ', '') in ('[self]', 'deque([self])', 'list((self,))')]
+            pops = [n for n in w.body if isinstance(n, ast.Assign) and isinstance(n.value, ast.Call) and src(n.value.func) in (f'{L}.pop', f'{L}.popleft') and isinstance(n.targets[0], ast.Name)]
+            if init and pops and all(isinstance(b, (ast.Assign, ast.Expr)) for b in w.body):
+                cv = pops[0].targets[0].id
+                sets_root = any(isinstance(b, ast.Assign) and src(b.targets[0]) == f'{cv}.root' and src(b.value) == rp for b in w.body)
+                feeds = any(isinstance(b, ast.Expr) and isinstance(b.value, ast.Call) and src(b.value.func) == f'{L}.extend' and b.value.args
+                            and src(b.value.args[0]) in (f'{cv}.components', f'{cv}.components.copy()', f'list({cv}.components)') for b in w.body)
+                wl_ok = sets_root and feeds
+    chk.ob('b', upd.ref, '_updateRoot assigns the new root on every path', (p is None and bool(st)) or wl_ok, loc(upd, upd.node), discr='updateRoot:assign')
     loops = [n for n in g.nodes if n.kind == 'for' and src(n.ast.iter) in ('self.components', 'self.components.copy()', 'list(self.components)')]
     rec_ok = False
     for lp in loops:
@@ -214,4 +229,4 @@ def run(repo, chk):
             tests = [n for n in g.nodes if ('loop', lp.ast) in n.ctx and n.kind == 'test']
             rec_ok = not tests
     p = Q.escapes(g, [g.entry], lambda n: n in loops)
-    chk.ob('b', upd.ref, '_updateRoot recurses into every child with the same root', rec_ok and p is None, loc(upd, upd.node), discr='updateRoot:recurse')
+    chk.ob('b', upd.ref, '_updateRoot recurses into every child with the same root', (rec_ok and p is None) or wl_ok, loc(upd, upd.node), discr='updateRoot:recurse')
